@@ -14,6 +14,15 @@ CHECKS={
  "C10":dict(tech="deterministic simulation: bounded liveness after faults stop (fake clock), seeded layouts/knobs/actors/fault schedules, real rain session vs scripted honest and byzantine sources",
    text="Whole downloads are simulated (layouts with padding/empty files/odd sizes, both picker modes, encryption settings, .torrent and magnet, peers and web seeds) with byzantine peers and network faults until a plan-chosen instant; after it an honest re-dialling full source exists and completion with correct files is demanded within a generous fake-time bound. Exploration is the right level for a liveness property over all layouts, configurations and fault schedules.",
    ref="DESIGN.md 5 C10", note="Liveness bound is 30 min (clean) / 2 h (after faults) of fake time; the honest source re-dials so that reachability is real. "+LEVEL_NOTE_COMMON),
+ "C03":dict(tech="deterministic simulation: SUT seeds from a simulated disk through the real read cache; scripted leechers issue generated request histories; every received block checked against ground truth",
+   text="A real session seeds (after verifying pre-placed data, possibly partial) while 1-5 scripted leechers send generated requests: aligned, unaligned, crossing read-cache-block multiples, zero-length, over-long, overflowing, out-of-range, for missing pieces, while choked, duplicated and cancelled, under randomised cache block size/capacity/TTL, parallel reads, queue limits, disk read errors and connection resets. Every block received is compared with the requested range of the ground-truth piece; invalid requests must never be answered with data; data while choked only for allowed-fast pieces (FIFO stream reasoning).",
+   ref="DESIGN.md 5 C03", note="All 2^96 request triples are sampled with boundary bias, not enumerated. "+LEVEL_NOTE_COMMON),
+ "C09":dict(tech="deterministic simulation: every request received by scripted peers checked against the peer's own advertised/choke/allowed-fast/have view under seeded event histories; availability counter compared with settled peers",
+   text="In the transfer worlds each scripted peer checks every request it receives: piece advertised by it, not announced by the SUT earlier on the same stream, not while choking unless allowed-fast (choke known to be consumed by the SUT via transport marks), all outstanding requests of one piece, queue length within the configured limits; the monitor compares Stats().Pieces.Available with the pieces advertised by settled connected peers. Histories (have/bitfield, choke flapping, allowed-fast, snubs, disconnects, hash failures, web-seed faults, both picker modes, end-game limits) come from seeded plans.",
+   ref="DESIGN.md 5 C09", note="Web-seed range overlap and the sequential-order clause are checked only through their wire consequences so far; the component-level picker model is not built yet. "+LEVEL_NOTE_COMMON),
+ "C11":dict(tech="deterministic simulation: strict independent decoder on every byte the SUT emits under PRNG fragmentation; socket tap vs upload counter",
+   text="Every byte a real session writes to a scripted peer (handshake, core, fast, extension handshake, ut_metadata, PEX) is parsed by a from-scratch strict decoder under seeded fragmentation and read chunking in all transfer and seeding runs; the upload counter is compared after quiescence with piece payload bytes counted by a tap on the simulated sockets.",
+   ref="DESIGN.md 5 C11", note="Known finding F06 (upload counter undercount at connection close) is listed in known_findings.json and reported as KNOWN-FINDING. rain->rain round trip through rain's own reader is not yet exercised. "+LEVEL_NOTE_COMMON),
 }
 NA_REASON="check not built yet in this session (simulation scenario planned in DESIGN.md section 5; will be claimed once it runs clean on the unchanged tree)"
 m={"version":1,"setup_cmd":"./setup.sh",
